@@ -207,6 +207,7 @@ type VerifyOpts struct {
 	Scan      bool // a full Query(All()) pass
 	Hooks     bool // structural invariants through the verif hook
 	Dead      bool // Alive == false for every removed handle
+	Locked    bool // the caller holds a lock (skip the "unlocked between ops" check)
 }
 
 // FullVerify compares everything.
@@ -228,6 +229,9 @@ func (b *WB) verify(m *Model, o VerifyOpts) error {
 	}
 	if w.Alive(ecs.Entity{}) {
 		return fmt.Errorf("%s: the zero entity is reported alive", b.Name)
+	}
+	if !o.Locked && w.IsLocked() {
+		return fmt.Errorf("%s: IsLocked()=true although no query is open", b.Name)
 	}
 	if used := w.Stats().Entities.Used; used != m.NAlive {
 		return fmt.Errorf("%s: Stats().Entities.Used=%d, creations-removals=%d", b.Name, used, m.NAlive)
